@@ -560,6 +560,11 @@ class StmtMixin:
                                     case=self.cur_case))
 
     def check_invs(self, st, spec: LoopSpec, kind, lid, var, line):
+        if kind == "inv-init":
+            for (label, expr) in spec.init_hints:
+                g_ = self.spec_bool(expr, st)
+                self.oblig(st, f"init-hint#{lid}", g_, line, label=label, cls="H")
+                st.assume(g_)
         if kind == "inv-keep":
             for (label, expr) in spec.end_hints:
                 g_ = self.spec_bool(expr, st)
